@@ -288,6 +288,7 @@ class CheckedX(NativeX):
         NativeX.__init__(self, None, rng, W)
         self.ctx = B.Ctx(W)
         self.I = B.INTERP
+        self.I._symdicts = {}
         self.mismatch = None
         self.calls = 0
 
